@@ -332,6 +332,9 @@ var c11Advertised = probe.Define("C11", "advertised", func(t *rapid.T) c11AdvIn 
 		}); err != nil {
 			return probe.Fail("NewIKESAKey from the library's own proposal: %v", err)
 		}
+		if got == nil {
+			return probe.Fail("NewIKESAKey returned neither an SA nor an error")
+		}
 		if got.EncrInfo == nil || got.IntegInfo == nil || got.PrfInfo == nil || got.DhInfo == nil ||
 			got.EncrInfo.TransformID() != sa.EncrInfo.TransformID() || got.EncrInfo.GetKeyLength() != sa.EncrInfo.GetKeyLength() ||
 			got.IntegInfo.TransformID() != sa.IntegInfo.TransformID() || got.IntegInfo.GetKeyLength() != sa.IntegInfo.GetKeyLength() || got.IntegInfo.GetOutputLength() != sa.IntegInfo.GetOutputLength() ||
@@ -385,6 +388,9 @@ var c11Advertised = probe.Define("C11", "advertised", func(t *rapid.T) c11AdvIn 
 			return probe.OK(true, "child-proposal:no-integrity-refused")
 		}
 		return probe.Fail("NewChildSAKeyByProposal from the library's own proposal: %v", err)
+	}
+	if got == nil {
+		return probe.Fail("NewChildSAKeyByProposal returned neither an SA nor an error")
 	}
 	same := got.EncrKInfo != nil && got.EncrKInfo.TransformID() == c.EncrKInfo.TransformID() && got.EncrKInfo.GetKeyLength() == c.EncrKInfo.GetKeyLength() &&
 		(got.IntegKInfo == nil) == (c.IntegKInfo == nil) && (got.DhInfo == nil) == (c.DhInfo == nil) && got.EsnInfo.GetNeedESN() == in.ESN
@@ -500,6 +506,9 @@ var c11Bad = probe.Define("C11", "bad-proposal", func(t *rapid.T) c11BadIn {
 	if err != nil {
 		// supported identifiers with a foreign attribute may be refused; never mis-mapped
 		return probe.OK(false, "supported-but-refused:"+in.Which)
+	}
+	if (in.Child && gotC == nil) || (!in.Child && gotI == nil) {
+		return probe.Fail("neither an SA nor an error was returned for a proposal with %s id %d", in.Which, in.ID)
 	}
 	// accepted: the mapping must be the right one
 	if !in.Child {
